@@ -683,6 +683,29 @@ pub fn run_hostile_case(ctx: &Ctx, c: &HostileCase) -> Result<CaseRun, CaseAbort
     let mut classes: Vec<&'static str> = Vec::new();
     let held: Arc<Mutex<Vec<TcpStream>>> = Arc::new(Mutex::new(Vec::new()));
 
+    // a crowd of clients that connect and never send a request line: each of them may occupy the
+    // server for its read timeout, none of them may keep other clients from being answered
+    if c.silent_crowd > 0 {
+        let port = w.servers.tcp_port;
+        let n = c.silent_crowd;
+        let held2 = held.clone();
+        let connected = w.rt.block_on(async move {
+            let mut ok = 0u16;
+            for _ in 0..n {
+                if let Ok(Ok(s)) = tokio::time::timeout(WATCHDOG, TcpStream::connect(("127.0.0.1", port))).await {
+                    held2.lock().unwrap().push(s);
+                    ok += 1;
+                }
+            }
+            // let the accept loop take them all
+            tokio::time::sleep(std::time::Duration::from_millis(30)).await;
+            ok
+        });
+        if connected >= 64 {
+            classes.push("silent-crowd>=64-connected");
+        }
+    }
+
     // hostile clients run as tasks of the same runtime: they make progress
     // exactly while the probes below are in flight ("meanwhile")
     let tasks: Vec<JoinHandle<Vec<(Hostile, HostileResult)>>> = c
